@@ -89,3 +89,15 @@ PROPS["C07"] = {
         {"name": "codec-w64", "world": "W64", "src": "props/C07_codec.c"},
     ],
 }
+
+PROPS["C15"] = {
+    "level": "model_checking",
+    "technique": "explicit-state exploration of the DRBG state machine: every history of generate/reseed/refused-request transitions up to depth 3 (quick) / 4 (thorough) from eight instantiations, plus every transition from ~1300 injected non-initial states (carry paths, large reseed counters), each step compared with an independent SP 800-90A Hash_DRBG model (GMP integers + OpenSSL SHA-256)",
+    "level_text": "The generator is a real state machine (V, C, reseed counter, seeded flag). All |Sigma|^d histories over a 21-transition alphabet (13 request sizes 0..65536 incl. non-multiples of the digest length, the refused 65537-byte request, 6 reseed lengths, the refused empty seed) are replayed on the real code from a fresh state and compared with the model after EVERY transition (output bytes, V, C, counter). Carry chains that hashes cannot reach in bounded depth are covered by injecting V, C in {0, 1, 2^440-1, 2^440-2, 2^256-1, 2^256, (2^256-1)*2^184, 2^439, 00FF.., 00FF..FF} and counters in {1, 2, 255..257, 32511..32513, 32767, 32768, 65535, 65536, 2^31-2}, and by honestly generating up to counter 70 000. bn_rand for every bit length 0..precision and bn_rand_mod for ten bounds (64 draws x 4 seeds, zero-rejection path counted) are compared with the model stream.",
+    "level_note": "Trusted: the 60-line reference Hash_DRBG (validated against relic on the CAVS vectors of test_rand.c implicitly through agreement on all histories), OpenSSL SHA-256, GMP. Not reached: histories longer than the depth from hash-reachable states other than the injected ones; prediction resistance / additional input (not offered by the API).",
+    "rule": "a case is a whole call history (instantiation, transitions); histories are enumerated by an odometer over the transition alphabet, distinct by construction and by 64-bit hash; states = distinct histories reached + injected states; transitions = single generator calls compared with the model.",
+    "assumptions": ["SP 800-90A rev.1 section 10.1.1 as implemented in the reference model", "MD_MAP is SHA-256 (shipped default)"],
+    "jobs": [
+        {"name": "drbg-w64", "world": "W64", "src": "props/C15_drbg.c"},
+    ],
+}
